@@ -51,6 +51,23 @@ HINTS = {
   * the earlier rounds already covered: long histories, 0 / None / falsy configuration values, huge clocks, two instances alive
     at once, tables changed at run time, re-entrant next hops, the same object passing twice, events coinciding inside one
     instant, equality-with-everything values, interrupts from plain callbacks -- do not rely on those.""",
+    "6": """  * pick a clause of the STATEMENT and ask "what observable situation exercises exactly this clause, and in which variants
+    of it could the code go wrong while all the other clauses still hold?" -- e.g. the clause about a counter, a returned value,
+    an error that must be raised, an order among equals, a quantity that must be conserved;
+  * off-by-one and boundary comparisons in places a random workload hits rarely: the second element, the element before the
+    last, exactly at a limit / threshold / deadline, an empty queue right after it held one element, wrap from the last table
+    entry to the first;
+  * state kept across phases of one object's life: created -> used -> idle -> used again -> stopped -> restarted; something
+    cleaned up too early or too late; a value computed once at construction that should follow later changes of a public
+    attribute (rate, weights, limits, delay distribution, callbacks);
+  * interplay with the simulation kernel: a component that yields one extra time (or one time less) inside an instant, creates
+    its helper process lazily, uses a timeout of 0 where it used none, or reorders two of its own actions inside one instant;
+  * several flows / processes / classes that map onto ONE internal slot (same key after a mapping, same priority, same stamp,
+    same size) or one flow that is split over several;
+  * the earlier five rounds already covered: long histories, 0 / None / falsy values, huge / negative / integer / rational clocks,
+    two instances alive at once, tables changed at run time, re-entrant next hops, the same object passing twice, coincidences
+    inside one instant, exotic value types, interrupts from callbacks, shared mutable defaults, `is` vs `==`, stale caches,
+    changes outside the anchor files, debug flags, float / Fraction sizes -- do not rely on those.""",
 }
 
 
